@@ -785,7 +785,7 @@ def gen_src(unit_name):
 GEN_SRC = {n: gen_src(n) for n in ("SrcKmpLps", "SrcShiftAndMasks", "SrcHorspoolNew", "SrcFenwick", "SrcBitEnc", "SrcBwt", "SrcPrescan")}
 
 # genpm: search loops of the exact matchers (C08) and distance functions (C09)
-GEN_SRC.update({n: gen_src(n) for n in ("SrcShiftAndNext", "SrcKmpNext", "SrcHorspoolNext", "SrcBndmNext")})
+GEN_SRC.update({n: gen_src(n) for n in ("SrcShiftAndNext", "SrcKmpNext", "SrcHorspoolNext", "SrcBndmNext", "SrcBomNext")})
 GEN_SRC.update({n: gen_src(n) for n in ("SrcHamming",)})
 
 
@@ -842,7 +842,7 @@ EXTRACTORS = {
 }
 
 # genpm: `Matches::next` of the exact matchers; Thm/C08.lean imports RbV.Thm.GenSrc*Next and restates the theorems
-EXTRACTORS["C08"] = EXTRACTORS["C08"] + [GEN_SRC[n] for n in ("SrcShiftAndNext", "SrcKmpNext", "SrcHorspoolNext", "SrcBndmNext")]
+EXTRACTORS["C08"] = EXTRACTORS["C08"] + [GEN_SRC[n] for n in ("SrcShiftAndNext", "SrcKmpNext", "SrcHorspoolNext", "SrcBndmNext", "SrcBomNext")]
 # genpm: C09 — Thm/C09.lean imports RbV.Thm.GenSrcHamming (…) and restates the theorems
 EXTRACTORS["C09"] = EXTRACTORS.get("C09", []) + [GEN_SRC[n] for n in ("SrcHamming",)]
 
